@@ -77,11 +77,11 @@ Definition TSp (p : params) (st : lstate) : Prop := ptimes p = true -> TS st.
 
 Definition TGood (p : params) (T : Z) (st : lstate) : Prop :=
   KGood p st /\ TSp p st /\ tmono 0 (all_recs (segs st)) /\
-  (forall m, In m (all_recs (segs st)) -> mtime m <= T) /\ wcarry st <= T /\ 0 <= T.
+  (forall m, In m (all_recs (segs st)) -> mtime m <= T) /\ (ptimes p = true -> wcarry st <= T) /\ 0 <= T.
 
 Lemma tgood_init p : TGood p 0 init_state.
 Proof.
-  split; [apply kgood_init|]. split; [intros _; constructor|]. split; [exact I|]. split; [intros m []|]. cbn. lia.
+  split; [apply kgood_init|]. split; [intros _; constructor|]. split; [exact I|]. split; [intros m []|]. cbn. split; [intros _|]; lia.
 Qed.
 
 (* ---------- Publish *)
@@ -225,5 +225,366 @@ Qed.
 
 Lemma WRel_refl c st : WRel c st st. Proof. reflexivity. Qed.
 Lemma WRel_trans c a b d : WRel c a b -> WRel c b d -> WRel c a d. Proof. unfold WRel. congruence. Qed.
+
+
+(* ---------- Close / Open / maintenance *)
+
+Definition TQ (s : seg) : Prop := tmono 0 (srecs s) /\ ts_faithful_seg s.
+
+Lemma segment_recover_tq p s s' : ptimes p = true -> seg_inv s -> TQ s -> segment_recover H p s = Ok s' -> TQ s'.
+Proof.
+  intros Hp Hi [Hm Hf]. unfold segment_recover. rewrite (seg_inv_open_log s Hi). cbn [bind].
+  destruct (sidx s) as [ix|] eqn:Esi; [|intros E; injection E as <-; split; assumption].
+  destruct (open_idx_reader s ix) as [items|]; [|intros E; injection E as <-; split; [exact Hm|apply tf_none]].
+  destruct (list_eqb item_eqb items (derive H p (sver s) (srecs s))); intros E; injection E as <-; [split; assumption|].
+  split; [exact Hm|now apply tf_derive].
+Qed.
+
+Lemma segment_migrate_tq p v s s' : ptimes p = true -> seg_inv s -> TQ s -> segment_migrate H p v v s = Ok s' -> TQ s'.
+Proof.
+  intros Hp Hi [Hm Hf]. unfold segment_migrate. rewrite (seg_inv_open_log s Hi). cbn [bind].
+  destruct (ver_eqb (sver s) v); intros E; injection E as <-; [split; assumption|].
+  split; [exact Hm|]. intros iv items E. cbn in E. injection E as <- <-. right. unfold faithful, derive. cbn [srecs].
+  now apply derive_faithful.
+Qed.
+
+Lemma open_writer_tq c s s' : ctimes c = true -> seg_inv s -> TQ s -> open_writer H c s = Ok s' -> TQ s'.
+Proof.
+  intros Hp Hi [Hm Hf]. pose proof Hi as (Hs & Hnn & Hfb & Hix & Hb). unfold open_writer.
+  set (s1 := if seg_log_size s =? 0 then mkSeg (sbase s) (cnewver c) (srecs s) (sidx s) else s).
+  assert (H1 : (if seg_log_size s =? 0 then Ok (mkSeg (sbase s) (cnewver c) (srecs s) (sidx s))
+                else do _ <- open_log_reader s; Ok s) = Ok s1).
+  { unfold s1. destruct (seg_log_size s =? 0); [reflexivity|]. now rewrite (seg_inv_open_log s Hi). }
+  rewrite H1. cbn [bind].
+  assert (Hs1 : seg_inv s1 /\ TQ s1).
+  { unfold s1. destruct (seg_log_size s =? 0) eqn:E0; [|split; [assumption|split; assumption]].
+    assert (Er : srecs s = []) by (apply (log_size_small (sver s)); unfold seg_log_size in E0; lia).
+    split.
+    - repeat split; cbn [srecs sbase sver sidx]; try assumption.
+      intros iv items Ei. destruct (Hix iv items Ei) as [->|Hmm]; [left; reflexivity|]. left. rewrite Er in Hmm. now apply items_match_nil in Hmm.
+    - split; [exact Hm|]. intros iv items Ei. cbn [sidx] in Ei. exact (Hf iv items Ei). }
+  destruct Hs1 as [Hi1 [Hm1 Hf1]].
+  assert (H2 : forall s2, (if 8 <? seg_log_size s1 then do r <- ensure_index H (cparams c) (cnewver c) s1; Ok (fst r) else Ok s1) = Ok s2 -> TQ s2).
+  { intros s2. destruct (8 <? seg_log_size s1).
+    - destruct (ensure_index H (cparams c) (cnewver c) s1) as [[s2' its2]|] eqn:Ee; [|discriminate]. cbn [bind fst].
+      intros E. injection E as <-. unfold ensure_index in Ee. destruct (needs_reindex s1).
+      + unfold reindex in Ee. rewrite (seg_inv_open_log s1 Hi1) in Ee. cbn [bind] in Ee. injection Ee as <- _.
+        split; [exact Hm1|now apply tf_derive].
+      + destruct (sidx s1) as [ix|]; [|discriminate]. destruct (open_idx_reader s1 ix); [|discriminate]. cbn [bind] in Ee. injection Ee as <- _.
+        split; assumption.
+    - intros E. injection E as <-. split; assumption. }
+  destruct (if 8 <? seg_log_size s1 then do r <- ensure_index H (cparams c) (cnewver c) s1; Ok (fst r) else Ok s1) as [s2|]; [|discriminate].
+  destruct (H2 s2 eq_refl) as [Hm2 Hf2]. cbn [bind].
+  destruct (sidx s2) as [[iv items]|] eqn:Es2; [|intros E; injection E as <-; split; [exact Hm2|apply tf_empty]].
+  destruct iv, items; try (intros E; injection E as <-; split; [exact Hm2|apply tf_empty]).
+  - destruct (open_idx_reader s2 (V1, i :: items)); [|discriminate]. cbn [bind]. intros E. injection E as <-. split; assumption.
+  - cbn [open_idx_reader bind]. intros E. injection E as <-. split; assumption.
+  - cbn [open_idx_reader bind]. intros E. injection E as <-. split; assumption.
+Qed.
+
+Lemma TQ_all l : tmono 0 (all_recs l) -> Forall ts_faithful_seg l -> Forall TQ l.
+Proof.
+  intros Hm HF. rewrite Forall_forall in *. intros s Hs. split; [now apply (tmono_seg 0 l)|now apply HF].
+Qed.
+
+Lemma TQ_ts l : Forall TQ l -> Forall ts_faithful_seg l.
+Proof. intros HF. rewrite Forall_forall in *. intros s Hs. exact (proj2 (HF s Hs)). Qed.
+
+Theorem log_open_ts st c0 st' :
+  closed_dir st -> segs st <> [] -> ctimes c0 = true ->
+  tmono 0 (all_recs (segs st)) -> Forall ts_faithful_seg (segs st) ->
+  log_open H st c0 = Ok st' -> TS st'.
+Proof.
+  intros (Ho & Hv & HD) Hne Hpt Hm HT. unfold log_open. rewrite Ho. set (c := norm_cfg c0).
+  assert (Hpc : ctimes c = true) by exact Hpt. assert (Hpp : ptimes (cparams c) = true) by exact Hpt.
+  destruct HD as [HF Hch]. pose proof (TQ_all _ Hm HT) as HQ.
+  destruct (segs st) as [|s0 r0] eqn:Esegs; [congruence|]. rewrite <- Esegs in *.
+  destruct (cro c) eqn:Ero.
+  - rewrite Esegs. rewrite <- Esegs. destruct (if ccheck c || crecover c then dir_check H (cparams c) st else Ok tt); [|discriminate].
+    cbn [bind]. intros E. injection E as <-. exact HT.
+  - rewrite Esegs. rewrite <- Esegs.
+    destruct (if crecover c then map_last (segment_recover H (cparams c)) (segs st)
+              else if ccheck c then (do _ <- dir_check H (cparams c) st; Ok (segs st)) else Ok (segs st)) as [l1|] eqn:E1; [|discriminate].
+    cbn [bind].
+    assert (H1 : Forall seg_inv l1 /\ Forall TQ l1).
+    { destruct (crecover c).
+      - destruct (map_last_ok (segment_recover H (cparams c)) (segs st) HF (recover_step_ok H (cparams c))) as (l' & E & HF' & _).
+        rewrite E in E1. injection E1 as <-. split; [exact HF'|].
+        eapply (map_last_Q (segment_recover H (cparams c))); [|exact HF|exact HQ|exact E].
+        intros s s'. now apply segment_recover_tq.
+      - destruct (ccheck c).
+        + destruct (dir_check H (cparams c) st); [|discriminate]. cbn [bind] in E1. injection E1 as <-. split; assumption.
+        + injection E1 as <-. split; assumption. }
+    destruct H1 as [HF1 HQ1].
+    destruct (if ceager c then map_res (segment_migrate H (cparams c) (cnewver c) (cnewver c)) l1 else Ok l1) as [l2|] eqn:E2; [|discriminate].
+    cbn [bind].
+    assert (H2 : Forall seg_inv l2 /\ Forall TQ l2).
+    { destruct (ceager c).
+      - destruct (map_res_ok (segment_migrate H (cparams c) (cnewver c) (cnewver c)) l1 HF1 (migrate_step_ok H (cparams c) (cnewver c))) as (l' & E & HF' & _).
+        rewrite E in E2. injection E2 as <-. split; [exact HF'|].
+        eapply (map_res_Q (segment_migrate H (cparams c) (cnewver c) (cnewver c))); [|exact HF1|exact HQ1|exact E].
+        intros s s'. now apply segment_migrate_tq.
+      - injection E2 as <-. split; assumption. }
+    destruct H2 as [HF2 HQ2].
+    destruct (map_last (open_writer H c) l2) as [l3|] eqn:E3; [|discriminate]. cbn [bind]. intros E. injection E as <-. unfold TS. cbn [segs].
+    apply TQ_ts. eapply (map_last_Q (open_writer H c)); [|exact HF2|exact HQ2|exact E3].
+    intros s s'. now apply open_writer_tq.
+Qed.
+
+Theorem rm_index_ts l i which all : Forall ts_faithful_seg l -> Forall ts_faithful_seg (rm_index_at l i which all).
+Proof.
+  intros HX. revert i. induction HX as [|s r Hs HX IH]; intros i; cbn [rm_index_at]; constructor; [|apply IH].
+  destruct (all || zmem i which); [apply tf_none|exact Hs].
+Qed.
+
+Theorem dir_migrate_ts p v st st' :
+  ptimes p = true -> DirInv (segs st) -> tmono 0 (all_recs (segs st)) -> Forall ts_faithful_seg (segs st) ->
+  dir_migrate H p v st = Ok st' -> Forall ts_faithful_seg (segs st').
+Proof.
+  intros Hp [HF _] Hm HT. unfold dir_migrate. destruct (map_res (segment_migrate H p v v) (segs st)) as [l|] eqn:E; [|discriminate].
+  cbn [bind]. intros E2. injection E2 as <-. cbn [segs set_segs]. apply TQ_ts.
+  eapply (map_res_Q (segment_migrate H p v v)); [|exact HF|exact (TQ_all _ Hm HT)|exact E]. intros s s'. now apply segment_migrate_tq.
+Qed.
+
+Theorem dir_recover_ts p st st' :
+  ptimes p = true -> DirInv (segs st) -> tmono 0 (all_recs (segs st)) -> Forall ts_faithful_seg (segs st) ->
+  dir_recover H p st = Ok st' -> Forall ts_faithful_seg (segs st').
+Proof.
+  intros Hp [HF _] Hm HT. unfold dir_recover. destruct (map_last (segment_recover H p) (segs st)) as [l|] eqn:E; [|discriminate].
+  cbn [bind]. intros E2. injection E2 as <-. cbn [segs set_segs]. apply TQ_ts.
+  eapply (map_last_Q (segment_recover H p)); [|exact HF|exact (TQ_all _ Hm HT)|exact E]. intros s s'. now apply segment_recover_tq.
+Qed.
+
+
+(* ---------- whole histories whose publish times never decrease *)
+
+Definition tstep_ok (T : Z) (op : hop) : Prop := match op with HPub ms => tmono T ms | _ => True end.
+Definition T_next (T : Z) (op : hop) : Z := match op with HPub ms => last_time T ms | _ => T end.
+
+Lemma T_next_ge T op : tstep_ok T op -> T <= T_next T op.
+Proof. destruct op; cbn; try lia. intros Hm. exact (proj1 (tmono_last_bound T ms Hm)). Qed.
+
+Definition log_get_T := log_get_G H TRel TRel_refl TRel_trans TRel_wi.
+Definition log_get_by_key_T := log_get_by_key_G H TRel TRel_refl TRel_trans TRel_wi.
+Definition log_consume_by_key_T := log_consume_by_key_G H TRel TRel_refl TRel_trans TRel_wi.
+Definition log_get_by_time_T := log_get_by_time_G H TRel TRel_refl TRel_trans TRel_wi.
+Definition log_next_T := log_next_G H TRel TRel_refl TRel_trans TRel_wi.
+Definition log_stat_T := log_stat_G H TRel TRel_refl TRel_trans TRel_wi.
+Definition log_consume_T := log_consume_G H TRel TRel_refl TRel_trans TRel_wi.
+Definition log_get_W := log_get_G H WRel WRel_refl WRel_trans WRel_wi.
+Definition log_get_by_key_W := log_get_by_key_G H WRel WRel_refl WRel_trans WRel_wi.
+Definition log_consume_by_key_W := log_consume_by_key_G H WRel WRel_refl WRel_trans WRel_wi.
+Definition log_get_by_time_W := log_get_by_time_G H WRel WRel_refl WRel_trans WRel_wi.
+Definition log_next_W := log_next_G H WRel WRel_refl WRel_trans WRel_wi.
+Definition log_stat_W := log_stat_G H WRel WRel_refl WRel_trans WRel_wi.
+Definition log_consume_W := log_consume_G H WRel WRel_refl WRel_trans WRel_wi.
+
+Lemma live_abs st : live (abs st) = all_recs (segs st).
+Proof. reflexivity. Qed.
+
+(* a read: TS and the carried time are kept *)
+Lemma tread_step {A} p T (f : lstate -> res (lstate * A)) st :
+  (forall st1 r c, opened st = Some c -> f st = Ok (st1, r) -> TRel c st st1) ->
+  (forall st1 r c, opened st = Some c -> f st = Ok (st1, r) -> WRel c st st1) ->
+  (forall st1 r c, opened st = Some c -> f st = Ok (st1, r) -> R c st st1) ->
+  (opened st = None -> exists e, f st = Err e) ->
+  TGood p T st ->
+  TSp p (fst (lift st (f st))) /\ (ptimes p = true -> wcarry (fst (lift st (f st))) <= T).
+Proof.
+  intros HTR HWR HR Hcl (HKG & HTS & Hm & Hb & Hw & HT0). destruct (f st) as [[st1 r]|e] eqn:E; cbn [lift fst]; [|split; assumption].
+  pose proof HKG as (HG & HX & Hp).
+  destruct HG as [(Ho & _)|[HI|HV]].
+  - destruct (Hcl Ho) as (e & E'). discriminate.
+  - pose proof HI as (_ & _ & _ & _ & c & Hc & _). pose proof (Hp c Hc) as Hpc.
+    assert (HK : KInv (cparams c) st) by (rewrite Hpc; split; [exact HI|split; assumption]).
+    pose proof (HWR st1 r c Hc eq_refl) as Hwc. unfold WRel in Hwc. split; [|intros Hpt; rewrite Hwc; now apply Hw].
+    intros Hpt. assert (Hct : ctimes c = true) by (rewrite <- Hpc in Hpt; exact Hpt).
+    destruct (HTR st1 r c Hc eq_refl HK (HTS Hpt) Hc Hct Hm) as (_ & T1 & _). exact T1.
+  - pose proof HV as (Hv & _ & c & Hc & _). destruct (HR st1 r c Hc eq_refl) as [_ Heq]. rewrite (Heq Hv). split; assumption.
+Qed.
+
+Ltac closed_err' := intros Ho; unfold get_cfg; rewrite Ho; eexists; reflexivity.
+
+Theorem thstep_good p T st op :
+  TGood p T st -> uses p op -> tstep_ok T op -> TGood p (T_next T op) (fst (hstep H st op)).
+Proof.
+  intros HTG Hu Hok. pose proof HTG as (HKG & HTS & Hm & Hb & Hw & HT0). pose proof HKG as (HG & HX & Hp).
+  pose proof (T_next_ge T op Hok) as HTle.
+  destruct (hstep_good H st op HG) as [HG' HA'].
+  split; [now apply khstep_good|].
+  (* the live messages afterwards: monotone, bounded *)
+  assert (Hlive : tmono 0 (all_recs (segs (fst (hstep H st op)))) /\
+                  forall m, In m (all_recs (segs (fst (hstep H st op)))) -> mtime m <= T_next T op).
+  { rewrite <- !live_abs, HA'. destruct op; cbn [spec_step T_next tstep_ok] in *;
+      try (split; [exact Hm|intros m Hin; specialize (Hb m Hin); lia]).
+    - (* Publish *)
+      destruct (snd (hstep H st (HPub ms))) as [r| | | | |] eqn:Eo; try (split; [exact Hm|intros m Hin; specialize (Hb m Hin); lia]).
+      destruct r as [n|e]; [|split; [exact Hm|intros m Hin; specialize (Hb m Hin); lia]].
+      unfold spec_publish. cbn [live].
+      set (new := map (fun om => mkMsg (fst om) (mtime (snd om)) (mkey (snd om)) (mval (snd om))) (combine (seq_from (anext (abs st)) (length ms)) ms)).
+      assert (Hnt : map mtime new = map mtime ms).
+      { unfold new. generalize (anext (abs st)). clear. induction ms as [|x r IH]; intros z; [reflexivity|]. cbn. f_equal. apply IH. }
+      destruct (tmono_last_bound T ms Hok) as [_ Hlb].
+      split.
+      + apply (tmono_snoc_app 0 _ new T Hm Hb HT0). eapply tmono_times; [symmetry; exact Hnt|exact Hok].
+      + intros m Hin. apply in_app_or in Hin. destruct Hin as [Hin|Hin]; [specialize (Hb m Hin); lia|].
+        assert (Hmt : In (mtime m) (map mtime ms)) by (rewrite <- Hnt; now apply in_map).
+        apply in_map_iff in Hmt. destruct Hmt as (x & Ex & Hx). rewrite <- Ex. now apply Hlb.
+    - (* Delete *)
+      destruct (snd (hstep H st (HDel offs))) as [| |r| | |] eqn:Eo; try (split; [exact Hm|intros m Hin; specialize (Hb m Hin); lia]).
+      destruct r as [[deleted sz]|e]; [|split; [exact Hm|intros m Hin; specialize (Hb m Hin); lia]].
+      cbn [live]. unfold remove_msgs. split; [now apply tmono_filter|]. intros m Hin. apply filter_In in Hin. destruct Hin as [Hin _]. specialize (Hb m Hin). lia. }
+  destruct Hlive as [Hm' Hb'].
+  assert (Hrest : TSp p (fst (hstep H st op)) /\ (ptimes p = true -> wcarry (fst (hstep H st op)) <= T_next T op)).
+  { destruct op; cbn [hstep uses T_next tstep_ok] in *.
+    - (* Open *)
+      destruct (log_open H st c) as [st'|e] eqn:E; cbn [lift0 fst]; [|split; assumption].
+      assert (Hw0 : wcarry st' = 0).
+      { unfold log_open in E. destruct (opened st); [discriminate|]. destruct (segs st); destruct (cro (norm_cfg c)).
+        - injection E as <-. reflexivity.
+        - destruct (open_writer H (norm_cfg c) _); [|discriminate]. cbn [bind] in E. injection E as <-. reflexivity.
+        - destruct (if ccheck (norm_cfg c) || crecover (norm_cfg c) then _ else _); [|discriminate]. cbn [bind] in E. injection E as <-. reflexivity.
+        - destruct (if crecover (norm_cfg c) then _ else _); [|discriminate]. cbn [bind] in E.
+          destruct (if ceager (norm_cfg c) then _ else _); [|discriminate]. cbn [bind] in E.
+          destruct (map_last _ _); [|discriminate]. cbn [bind] in E. injection E as <-. reflexivity. }
+      split; [|intros _; rewrite Hw0; exact HT0]. intros Hpt. specialize (HTS Hpt).
+      destruct HG as [(Ho & Hv & HD)|[HI|HV]].
+      + destruct (segs st) as [|s0 r0] eqn:Es.
+        * unfold log_open in E. rewrite Ho, Es in E. destruct (cro (norm_cfg c)).
+          -- injection E as <-. unfold TS. cbn [segs]. constructor; [|constructor]. intros iv items Ei. cbn in Ei. injection Ei as <- <-. now left.
+          -- destruct (open_writer H (norm_cfg c) (mkSeg 0 V1 [] None)) as [w|] eqn:Ew; [|discriminate]. cbn [bind] in E. injection E as <-.
+             unfold TS. cbn [segs]. constructor; [|constructor].
+             assert (Hct : ctimes (norm_cfg c) = true) by (rewrite <- Hu in Hpt; exact Hpt).
+             refine (proj2 (open_writer_tq (norm_cfg c) _ w Hct (seg_inv_empty0) _ Ew)). split; [exact I|intros iv items Ei; discriminate].
+        * apply (log_open_ts st c st'); try (rewrite Es; discriminate).
+          -- split; [exact Ho|]. split; [exact Hv|]. rewrite Es. exact HD.
+          -- rewrite <- Hu in Hpt. exact Hpt.
+          -- rewrite Es. exact Hm.
+          -- rewrite Es. unfold TS in HTS. rewrite Es in HTS. exact HTS.
+          -- exact E.
+      + destruct HI as (_ & _ & _ & _ & c' & Hc' & _). unfold log_open in E. rewrite Hc' in E. discriminate.
+      + destruct HV as (_ & _ & c' & Hc' & _). unfold log_open in E. rewrite Hc' in E. discriminate.
+    - (* Close *)
+      destruct (log_close st) as [st'|e] eqn:E; cbn [lift0 fst]; [|split; assumption].
+      unfold log_close in E. destruct (opened st); [|discriminate]. injection E as <-. cbn [segs wcarry]. split; [|intros _; exact HT0].
+      intros Hpt. specialize (HTS Hpt). unfold TS. cbn [segs]. destruct (lvirt st); [constructor|exact HTS].
+    - (* Publish *)
+      destruct (log_publish H st ms) as [[st' n]|e] eqn:E; cbn [lift fst]; [|split; [assumption|intros Hpt; specialize (Hw Hpt); lia]].
+      destruct HG as [(Ho & _)|[HI|HV]].
+      + unfold log_publish, get_cfg in E. rewrite Ho in E. discriminate.
+      + pose proof HI as (_ & _ & _ & _ & c & Hc & _). pose proof (Hp c Hc) as Hpc.
+        assert (HK : KInv (cparams c) st) by (rewrite Hpc; split; [exact HI|split; assumption]).
+        assert (Hboth : ptimes p = true -> TS st' /\ wcarry st' <= last_time T ms).
+        { intros Hpt. assert (Hct : ctimes c = true) by (rewrite <- Hpc in Hpt; exact Hpt).
+          exact (log_publish_ts c st ms st' n T HK (HTS Hpt) Hc Hct Hm Hb (Hw Hpt) HT0 Hok E). }
+        split; [intros Hpt; exact (proj1 (Hboth Hpt))|intros Hpt; exact (proj2 (Hboth Hpt))].
+      + destruct HV as (_ & _ & c & Hc & Hro). unfold log_publish, get_cfg in E. rewrite Hc in E. cbn [bind] in E. rewrite Hro in E. discriminate.
+    - (* Delete *)
+      destruct (log_delete H st offs) as [[st' r]|e] eqn:E; cbn [lift fst]; [|split; assumption].
+      destruct HG as [(Ho & _)|[HI|HV]].
+      + unfold log_delete, get_cfg in E. rewrite Ho in E. discriminate.
+      + pose proof HI as (_ & _ & _ & _ & c & Hc & _). pose proof (Hp c Hc) as Hpc.
+        assert (HK : KInv (cparams c) st) by (rewrite Hpc; split; [exact HI|split; assumption]).
+        assert (Hboth : ptimes p = true -> TS st' /\ wcarry st' <= T).
+        { intros Hpt. assert (Hct : ctimes c = true) by (rewrite <- Hpc in Hpt; exact Hpt).
+          exact (log_delete_ts c st offs st' r T HK (HTS Hpt) Hc Hct Hm Hb (Hw Hpt) E). }
+        split; [intros Hpt; exact (proj1 (Hboth Hpt))|intros Hpt; exact (proj2 (Hboth Hpt))].
+      + destruct HV as (_ & _ & c & Hc & Hro). unfold log_delete, get_cfg in E. rewrite Hc in E. cbn [bind] in E. rewrite Hro in E. discriminate.
+    - pose proof (tread_step p T (fun s => log_consume H s off max) st) as HR. cbv beta in HR.
+      destruct (lift st (log_consume H st off max)) as [s r] eqn:El. cbn [fst] in *. apply HR; try assumption.
+      + intros st1 r1 c Hc E. eapply log_consume_T; eassumption.
+      + intros st1 r1 c Hc E. eapply log_consume_W; eassumption.
+      + intros st1 r1 c Hc E. eapply log_consume_R; eassumption.
+      + unfold log_consume. closed_err'.
+    - pose proof (tread_step p T (fun s => log_get H s off) st) as HR. cbv beta in HR.
+      destruct (lift st (log_get H st off)) as [s r] eqn:El. cbn [fst] in *. apply HR; try assumption.
+      + intros st1 r1 c Hc E. eapply log_get_T; eassumption.
+      + intros st1 r1 c Hc E. eapply log_get_W; eassumption.
+      + intros st1 r1 c Hc E. eapply log_get_R; eassumption.
+      + unfold log_get. closed_err'.
+    - pose proof (tread_step p T (fun s => log_get_by_key H s k) st) as HR. cbv beta in HR.
+      destruct (lift st (log_get_by_key H st k)) as [s r] eqn:El. cbn [fst] in *. apply HR; try assumption.
+      + intros st1 r1 c Hc E. eapply log_get_by_key_T; eassumption.
+      + intros st1 r1 c Hc E. eapply log_get_by_key_W; eassumption.
+      + intros st1 r1 c Hc E. eapply log_get_by_key_R; eassumption.
+      + unfold log_get_by_key. closed_err'.
+    - pose proof (tread_step p T (fun s => log_consume_by_key H s k off max) st) as HR. cbv beta in HR.
+      destruct (lift st (log_consume_by_key H st k off max)) as [s r] eqn:El. cbn [fst] in *. apply HR; try assumption.
+      + intros st1 r1 c Hc E. eapply log_consume_by_key_T; eassumption.
+      + intros st1 r1 c Hc E. eapply log_consume_by_key_W; eassumption.
+      + intros st1 r1 c Hc E. eapply log_consume_by_key_R; eassumption.
+      + unfold log_consume_by_key. closed_err'.
+    - pose proof (tread_step p T (fun s => log_get_by_time H s ts) st) as HR. cbv beta in HR.
+      destruct (lift st (log_get_by_time H st ts)) as [s r] eqn:El. cbn [fst] in *. apply HR; try assumption.
+      + intros st1 r1 c Hc E. eapply log_get_by_time_T; eassumption.
+      + intros st1 r1 c Hc E. eapply log_get_by_time_W; eassumption.
+      + intros st1 r1 c Hc E. eapply log_get_by_time_R; eassumption.
+      + unfold log_get_by_time. closed_err'.
+    - pose proof (tread_step p T (fun s => log_next H s) st) as HR. cbv beta in HR.
+      destruct (lift st (log_next H st)) as [s r] eqn:El. cbn [fst] in *. apply HR; try assumption.
+      + intros st1 r1 c Hc E. eapply log_next_T; eassumption.
+      + intros st1 r1 c Hc E. eapply log_next_W; eassumption.
+      + intros st1 r1 c Hc E. eapply log_next_R; eassumption.
+      + unfold log_next. closed_err'.
+    - pose proof (tread_step p T (fun s => log_stat H s) st) as HR. cbv beta in HR.
+      destruct (lift st (log_stat H st)) as [s r] eqn:El. cbn [fst] in *. apply HR; try assumption.
+      + intros st1 r1 c Hc E. eapply log_stat_T; eassumption.
+      + intros st1 r1 c Hc E. eapply log_stat_W; eassumption.
+      + intros st1 r1 c Hc E. eapply log_stat_R; eassumption.
+      + unfold log_stat. closed_err'.
+    - unfold when_closed. destruct (opened st) eqn:Ho; cbn [lift0 fst]; [split; assumption|].
+      cbn [segs set_segs wcarry]. split; [|exact Hw]. intros Hpt. unfold TS. cbn [segs]. apply rm_index_ts. exact (HTS Hpt).
+    - subst p0. unfold when_closed. destruct (opened st) eqn:Ho; cbn [fst]; [split; assumption|].
+      destruct (dir_migrate H p v st) as [st'|] eqn:E; cbn [lift0 fst]; [|split; assumption].
+      assert (Hwc : wcarry st' = wcarry st) by (unfold dir_migrate in E; destruct (map_res _ _); [|discriminate]; cbn [bind] in E; injection E as <-; reflexivity).
+      split; [|intros Hpt; rewrite Hwc; now apply Hw]. intros Hpt.
+      destruct HG as [(_ & _ & HD)|[HI|HV]].
+      + eapply dir_migrate_ts; try eassumption. exact (HTS Hpt).
+      + destruct HI as (_ & _ & _ & _ & c & Hc & _). congruence.
+      + destruct HV as (_ & _ & c & Hc & _). congruence.
+    - subst p0. unfold when_closed. destruct (opened st) eqn:Ho; cbn [fst]; [split; assumption|].
+      destruct (dir_recover H p st) as [st'|] eqn:E; cbn [lift0 fst]; [|split; assumption].
+      assert (Hwc : wcarry st' = wcarry st) by (unfold dir_recover in E; destruct (map_last _ _); [|discriminate]; cbn [bind] in E; injection E as <-; reflexivity).
+      split; [|intros Hpt; rewrite Hwc; now apply Hw]. intros Hpt.
+      destruct HG as [(_ & _ & HD)|[HI|HV]].
+      + eapply dir_recover_ts; try eassumption. exact (HTS Hpt).
+      + destruct HI as (_ & _ & _ & _ & c & Hc & _). congruence.
+      + destruct HV as (_ & _ & c & Hc & _). congruence. }
+  destruct Hrest as [HTS' Hw'].
+  split; [exact HTS'|]. split; [exact Hm'|]. split; [exact Hb'|]. split; [exact Hw'|lia].
+Qed.
+
+(* every state reached by a history that keeps its index options and publishes non-decreasing, non-negative times *)
+Fixpoint thist_ok (T : Z) (ops : list hop) : Prop :=
+  match ops with [] => True | op :: r => tstep_ok T op /\ thist_ok (T_next T op) r end.
+
+Fixpoint T_final (T : Z) (ops : list hop) : Z :=
+  match ops with [] => T | op :: r => T_final (T_next T op) r end.
+
+Theorem thistory p ops : forall T st,
+  TGood p T st -> Forall (uses p) ops -> thist_ok T ops -> TGood p (T_final T ops) (fst (hrun H st ops)).
+Proof.
+  induction ops as [|op r IH]; intros T st HG Hu Hok; [exact HG|]. apply Forall_cons_iff in Hu. destruct Hu as [Hu Hur]. destruct Hok as [Hok Hokr].
+  cbn [hrun T_final]. pose proof (thstep_good p T st op HG Hu Hok) as HG1. destruct (hstep H st op) as [s1 o]. cbn [fst] in HG1.
+  specialize (IH _ s1 HG1 Hur Hokr). destruct (hrun H s1 r) as [s2 os]. exact IH.
+Qed.
+
+(* GetByTime on every state reached by such a history *)
+Theorem get_by_time_on_monotone_histories p ops c ts :
+  Forall (uses p) ops -> thist_ok 0 ops ->
+  let st := fst (hrun H init_state ops) in
+  opened st = Some c -> lvirt st = false ->
+  check_get_by_time (abs st) (ctimes c) ts (obs_get (log_get_by_time H st ts)) = true.
+Proof.
+  intros Hu Hok st Hc Hv. destruct (thistory p ops 0 init_state (tgood_init p) Hu Hok) as (HKG & HTS & Hm & _). fold st in HKG, HTS, Hm.
+  pose proof HKG as (HG & HX & Hp). pose proof (Hp c Hc) as Hpc.
+  assert (HI : Inv st).
+  { destruct HG as [(Ho & _)|[HI|(Hv' & _)]]; [congruence|exact HI|congruence]. }
+  assert (HK : KInv (cparams c) st) by (rewrite Hpc; split; [exact HI|split; assumption]).
+  destruct (ctimes c) eqn:Hct.
+  - assert (Hts : TS st) by (apply HTS; rewrite <- Hpc; exact Hct).
+    pose proof (log_get_by_time_correct H c st ts HK Hts Hc Hm) as Hr. rewrite Hct in Hr. exact Hr.
+  - unfold log_get_by_time, get_cfg. rewrite Hc. cbn [bind]. rewrite Hct. reflexivity.
+Qed.
 
 End TimeInv.
